@@ -11,6 +11,9 @@ import wports
 import mdast
 
 ATOMS = G.TAGS + G.ATOMS + ["{% f a=1 %}{% /f %}", "<!-- a --><!-- /a -->", "{{ x }}{{ y }}", "[long link text here](http://example.com/a/b?c=d e)", "`a  b`"]
+# constructs with a sentence end inside them (semantic mode must not break there)
+SENT_ATOMS = ["`the quick brown foxes. Then the lazy dog`", "{% include the quick brown foxes. Then more %}", "[the quick brown foxes. Then the lazy dog](http://x.y/z)",
+              "<span title=\"the quick brown foxes. Then the dog\">", "<!-- the quick brown foxes. Then the dog -->"]
 OPENS, CLOSES = ["{%", "{#", "{{", "<!--"], ["%}", "#}", "}}", "-->"]
 
 
@@ -18,6 +21,10 @@ def classify(kf, rec):
     c = rec["case"]
     if kf.get("classifier") == "separated-tags-merged":
         return rec["what"].startswith("spacing: separated tags became adjacent")
+    if kf.get("classifier") == "sentence-end-inside-construct":
+        # the split construct itself, or a later one in the same paragraph whose delimiters now pair with the stray half
+        return bool(c.get("semantic")) and ("not intact" in rec["what"] or "adjacent tags were separated" in rec["what"]) and \
+            any(re.search(r"[a-z][.!?] [A-Z]", a) and a in c.get("text", "") for a in SENT_ATOMS)
     return False
 
 
@@ -30,7 +37,9 @@ def gen_case(rng):
     toks = []
     for _ in range(n):
         r = rng.random()
-        if r < 0.45:
+        if r < 0.04:
+            toks.append(("atom", rng.choice(SENT_ATOMS)))
+        elif r < 0.45:
             toks.append(("atom", rng.choice(ATOMS)))
         else:
             toks.append(("word", rng.choice(G.PLAIN + G.HAZARD_WORDS[:10] + G.SENT_WORDS)))
@@ -74,6 +83,9 @@ def run(chk: Check) -> None:
     ncase = 1500 * n
     for i in range(ncase):
         c = gen_case(rng)
+        if i == 0:     # fixed reproducer of finding D-60
+            t0 = "Please look at `the quick brown foxes. Then the lazy dog` for more details about it."
+            c = {"toks": [("word", "Please"), ("atom", SENT_ATOMS[0])], "seps": [" "], "t": t0}
         width = rng.choice([1, 5, 10, 20, 40, 88])
         i1, i2 = rng.choice(wports.INDENTS[:6])
         sem = i % 2 == 0
